@@ -115,6 +115,10 @@ func (pf *ProofMod) Verify(Session []byte, N *big.Int) bool {
 	if pf == nil || !pf.ValidateBasic() {
 		return false
 	}
+	// big.Jacobi panics on an even (or non-positive) modulus, so the modulus is checked first
+	if N == nil || N.Sign() != 1 || N.Bit(0) == 0 {
+		return false
+	}
 	// TODO: add basic properties checker
 	if isQuadraticResidue(pf.W, N) {
 		return false
